@@ -3,7 +3,7 @@
    configurations carry one fault each: a cancelling or raising callback, a read
    failure, a refused thread start. *)
 From Coq Require Import Lia.
-From Torf Require Import Base Pipeline PipelineProofs FlowProofs ThreadProofs PipeExplore PipeExploreProofs PipeConfigs.
+From Torf Require Import Base Pipeline PipelineProofs FlowProofs ThreadProofs DeadlockProofs PipeExplore PipeExploreProofs PipeConfigs.
 Open Scope Z_scope.
 
 (* the callback cancels from the second piece on (3 pieces): under every schedule the call returns
@@ -52,6 +52,17 @@ Theorem C04_no_worker_left_unbounded : forall c s,
   running_threads c s = [].
 Proof. exact no_worker_left. Qed.
 Print Assumptions C04_no_worker_left_unbounded.
+
+(* UNBOUNDED: no schedule deadlocks.  In every state reachable under any schedule -- any number of hashers and
+   pieces, any callback plan, read fault, refused additional hasher, any clock -- some thread can take a step as
+   long as the call has not returned.  Invariants (proofs/DeadlockProofs.v): the end-of-stream token of the piece
+   queue is unique and last (a hasher that wants to put it back finds the queue empty), the vital hasher works
+   as long as the reader does, the hash queue holds its end marker from the moment the janitor has ended until
+   the collector takes it, main only waits for hashers it has seen alive. *)
+Theorem C04_no_deadlock_unbounded : forall c s,
+  (1 <= cf_hashers c)%nat -> reach c s -> s_mdone s = false -> options c s <> [].
+Proof. exact no_deadlock. Qed.
+Print Assumptions C04_no_deadlock_unbounded.
 
 (* refuted on the faithful model (known findings): if the start of the janitor or of the first hasher
    is refused, the call raises RuntimeError while the reader (and hashers) keep running *)
